@@ -717,9 +717,9 @@ def run_tracker(ordered, ttl, ops):
             tr.remove_callback(EV[p[1]], third_cb[p[1]])
             subscribed[p[1]] = False
         elif p[0] == 'a':
-            if not subscribed[p[1]]:
-                tr.register_callback(EV[p[1]], third_cb[p[1]])
-                subscribed[p[1]] = True
+            # (subscribing twice is subscribing: one notification per event)
+            tr.register_callback(EV[p[1]], third_cb[p[1]])
+            subscribed[p[1]] = True
         elif p[0] == 'g':
             m_ = int(p[1])
             t = tr.get_track(str(m_) if k % 2 else m_)
